@@ -43,6 +43,7 @@ var props = map[string]propSpec{
 	"C01": {Scenarios: []string{"csync"}},
 	"C02": {Scenarios: []string{"csync"}},
 	"C03": {Scenarios: []string{"bcast"}},
+	"C20": {Scenarios: []string{"io"}},
 	"C08": {Scenarios: []string{"refcount"}},
 	"C09": {Scenarios: []string{"refcount"}},
 	"C10": {Scenarios: []string{"refcount"}},
